@@ -8,6 +8,7 @@ package shmipc
 import (
 	"fmt"
 	"os"
+	"sync/atomic"
 	"unsafe"
 )
 
@@ -206,6 +207,7 @@ func vfJoin() {
 
 // vfGate is called by the instrumented sources before every statement (line range lo..hi).
 func vfGate(file string, lo, hi int) {
+	vfHookCheck(file, lo, hi, false)
 	if vfCurrent < 0 {
 		return
 	}
@@ -237,3 +239,94 @@ func vfGate(file string, lo, hi int) {
 		th.done++
 	}
 }
+
+// sequential stall hook, native side: the gate in front of the statement that performs the
+// access before which the model ran the adversary (its vfHookOcc-th execution) runs it here.
+var (
+	vfHookFile   string
+	vfHookLine   int
+	vfHookOcc    int
+	vfHookFn     func()
+	vfHookSeen   int
+	vfHookAtomic bool
+)
+
+func vfHookCheck(file string, lo, hi int, atomicGate bool) {
+	if vfHookFn != nil && atomicGate == vfHookAtomic && file == vfHookFile && vfHookLine >= lo && vfHookLine <= hi {
+		vfHookSeen++
+		if vfHookSeen == vfHookOcc {
+			f := vfHookFn
+			vfHookFn = nil
+			f()
+		}
+	}
+}
+
+func vfAtomicLoadUint32(f string, l int, p *uint32) uint32 {
+	vfHookCheck(f, l, l, true)
+	return atomic.LoadUint32(p)
+}
+func vfAtomicLoadInt32(f string, l int, p *int32) int32 {
+	vfHookCheck(f, l, l, true)
+	return atomic.LoadInt32(p)
+}
+func vfAtomicLoadInt64(f string, l int, p *int64) int64 {
+	vfHookCheck(f, l, l, true)
+	return atomic.LoadInt64(p)
+}
+func vfAtomicLoadUint64(f string, l int, p *uint64) uint64 {
+	vfHookCheck(f, l, l, true)
+	return atomic.LoadUint64(p)
+}
+func vfAtomicStoreUint32(f string, l int, p *uint32, v uint32) {
+	vfHookCheck(f, l, l, true)
+	atomic.StoreUint32(p, v)
+}
+func vfAtomicStoreInt32(f string, l int, p *int32, v int32) {
+	vfHookCheck(f, l, l, true)
+	atomic.StoreInt32(p, v)
+}
+func vfAtomicStoreInt64(f string, l int, p *int64, v int64) {
+	vfHookCheck(f, l, l, true)
+	atomic.StoreInt64(p, v)
+}
+func vfAtomicStoreUint64(f string, l int, p *uint64, v uint64) {
+	vfHookCheck(f, l, l, true)
+	atomic.StoreUint64(p, v)
+}
+func vfAtomicAddUint32(f string, l int, p *uint32, d uint32) uint32 {
+	vfHookCheck(f, l, l, true)
+	return atomic.AddUint32(p, d)
+}
+func vfAtomicAddInt32(f string, l int, p *int32, d int32) int32 {
+	vfHookCheck(f, l, l, true)
+	return atomic.AddInt32(p, d)
+}
+func vfAtomicAddInt64(f string, l int, p *int64, d int64) int64 {
+	vfHookCheck(f, l, l, true)
+	return atomic.AddInt64(p, d)
+}
+func vfAtomicAddUint64(f string, l int, p *uint64, d uint64) uint64 {
+	vfHookCheck(f, l, l, true)
+	return atomic.AddUint64(p, d)
+}
+func vfAtomicCompareAndSwapUint32(f string, l int, p *uint32, o, n uint32) bool {
+	vfHookCheck(f, l, l, true)
+	return atomic.CompareAndSwapUint32(p, o, n)
+}
+func vfAtomicCompareAndSwapInt32(f string, l int, p *int32, o, n int32) bool {
+	vfHookCheck(f, l, l, true)
+	return atomic.CompareAndSwapInt32(p, o, n)
+}
+func vfAtomicCompareAndSwapInt64(f string, l int, p *int64, o, n int64) bool {
+	vfHookCheck(f, l, l, true)
+	return atomic.CompareAndSwapInt64(p, o, n)
+}
+func vfAtomicCompareAndSwapUint64(f string, l int, p *uint64, o, n uint64) bool {
+	vfHookCheck(f, l, l, true)
+	return atomic.CompareAndSwapUint64(p, o, n)
+}
+
+func vfStallHook(region []byte, cut int, f func()) { vfHookFn, vfHookSeen = f, 0 }
+func vfStallHookOff()                              { vfHookFn = nil }
+func vfInfeasibleOK() {}
